@@ -792,10 +792,21 @@ func main() {
 	}
 
 	// ---- 3. no route ----
-	for i := 0; i < run.Scale(120, 2000); i++ {
+	for i := 0; i < run.Scale(240, 4000); i++ {
 		q := genReq(r, false)
 		status := []int{0, 404, 503, 200, 99, 100, 999, 1000, -1, 418, 599, 302}[r.Intn(12)]
-		html := pick(r, []string{"", "<html>no route</html>", "x", strings.Repeat("<p>nothing here</p>\n", 50)})
+		// the page is configuration text written verbatim: bytes that mean something to a
+		// formatter, a template engine or a C string must arrive as they are
+		html := pick(r, []string{"", "", "<html>no route</html>", "x", strings.Repeat("<p>nothing here</p>\n", 50),
+			"%", "%%", "%s", "%d", "%v%v", "100%", "<div style=\"width:100%;\">no route</div>", "<a href=\"/a%20b\">x</a>", "%!", "%!s(MISSING)", "50% off%",
+			"a\x00b", "\x00", "caf\xc3\xa9 \xff\xfe", "line1\r\nline2\r\n\r\n", "{{.Path}} {{ \"x\" }}", "\\n \\x41 $1 ${HOME}",
+			strings.Repeat("0123456789abcde%", 4096), strings.Repeat("%s", 20), "%[1]d %*d %#v %T %q %x %p %+v %c"})
+		if i%12 == 0 {
+			q.Method = []string{"GET", "HEAD", "POST"}[(i/12)%3]
+			if q.Method == "POST" && len(q.Body) == 0 {
+				q.Body = genBody(r)
+			}
+		}
 		noroute.SetHTML(html)
 		res, err := serve(q.wire(r), func(*http.Request) *route.Target { return nil }, config.Proxy{NoRouteStatus: status}, &respT{Status: 200})
 		noroute.SetHTML("")
